@@ -35,17 +35,23 @@ class QueueMonitor:
             return None
         k = len(self.pops)
         key = pt_key(item['pt'])
-        rec = {'k': k, 'key': key, 'prob': item['prob'], 'base_prob': item['base_prob'], 'heap': len(self.q.p_queue)}
+        # 'order' is the property itself (C01); the other kinds look inside the queue object (its heap list, its max_probability field) and are
+        # diagnostics: a check reports them only together with an observable effect, so another correct queue implementation raises no alarm
+        heap = getattr(self.q, 'p_queue', None)
+        rec = {'k': k, 'key': key, 'prob': item['prob'], 'base_prob': item['base_prob'], 'heap': len(heap) if heap is not None else -1}
         if self.pops and not (item['prob'] <= self.pops[-1]['prob']):
             self.problems.append(('order', k, f"pop {k} prob {item['prob']!r} > previous {self.pops[-1]['prob']!r}"))
-        if self.q.max_probability != item['prob']:
-            self.problems.append(('maxprob', k, f"queue.max_probability {self.q.max_probability!r} != popped prob {item['prob']!r}"))
-        for qi in self.q.p_queue:
-            if qi.pt_item['prob'] > item['prob']:
-                self.problems.append(('queued-more-probable', k, f"queued {pt_key(qi.pt_item['pt'])} prob {qi.pt_item['prob']!r} > just popped {item['prob']!r}"))
-                break
+        try:
+            if getattr(self.q, 'max_probability', item['prob']) != item['prob']:
+                self.problems.append(('maxprob', k, f"queue.max_probability {self.q.max_probability!r} != popped prob {item['prob']!r}"))
+            for qi in heap or []:
+                if qi.pt_item['prob'] > item['prob']:
+                    self.problems.append(('queued-more-probable', k, f"queued {pt_key(qi.pt_item['pt'])} prob {qi.pt_item['prob']!r} > just popped {item['prob']!r}"))
+                    break
+        except (AttributeError, KeyError, TypeError):
+            heap = None
         self.pops.append(rec)
-        if self.frontier:
+        if self.frontier and heap is not None:
             self.emitted.add(key + (item['base_prob'],))
             self._frontier(k)
         return item
@@ -64,7 +70,10 @@ class QueueMonitor:
 
     def _frontier(self, k):
         self.checked_frontier += 1
-        queued = [pt_key(qi.pt_item['pt']) + (qi.pt_item['base_prob'],) for qi in self.q.p_queue]
+        try:
+            queued = [pt_key(qi.pt_item['pt']) + (qi.pt_item['base_prob'],) for qi in self.q.p_queue]
+        except (AttributeError, KeyError, TypeError):
+            return
         qs = set(queued)
         if len(qs) != len(queued):
             self.problems.append(('dup-in-queue', k, 'a pre-terminal is queued twice'))
